@@ -243,6 +243,7 @@ static std::string oracle_words(std::set<pat_key> const &ps,std::set<std::string
 	}
 	// close the subject set under "captured group of some pattern on some subject"
 	std::set<std::string> done;
+	subjects.insert(std::string()); // an unmatched / out-of-range group converts to the empty string
 	while(!subjects.empty()) {
 		std::string s=*subjects.begin(); subjects.erase(subjects.begin());
 		if(!done.insert(s).second) continue;
@@ -550,10 +551,21 @@ static std::string run_UR(std::vector<words_t> const &s,bool route)
 	return m+" "+join_log();
 }
 
+static std::string run_kind(words_t const &w,std::vector<words_t> const &s);
 static std::string run(words_t const &w)
 {
 	if(w.empty()) return "bad-op";
 	std::vector<words_t> s=sections(w);
+	if(g_oracle) {
+		// oracle mode answers with oracle words only; a case the real code rejects has none
+		g_oracle=false; std::string r;
+		try { g_oracle=true; r=run_kind(w,s); } catch(...) { g_oracle=true; return ""; }
+		return (r.compare(0,2,"I ")==0 || r.compare(0,2,"O ")==0) ? r : std::string();
+	}
+	return run_kind(w,s);
+}
+static std::string run_kind(words_t const &w,std::vector<words_t> const &s)
+{
 	if(w[0]=="D") return run_D(s);
 	if(w[0]=="MP") return run_MP(s);
 	if(w[0]=="P") return run_P(s);
